@@ -264,9 +264,13 @@ class MultitaskGaussianLikelihood(_MultitaskGaussianLikelihoodBase):
             raise AttributeError("Cannot set diagonal task noises when covariance has ", self.rank, ">0")
 
     def _set_noise(self, value: Union[float, Tensor]) -> None:
+        if not torch.is_tensor(value):
+            value = torch.as_tensor(value).to(self.raw_noise)
         self.initialize(raw_noise=self.raw_noise_constraint.inverse_transform(value))
 
     def _set_task_noises(self, value: Union[float, Tensor]) -> None:
+        if not torch.is_tensor(value):
+            value = torch.as_tensor(value).to(self.raw_task_noises)
         self.initialize(raw_task_noises=self.raw_task_noises_constraint.inverse_transform(value))
 
     @property
